@@ -122,13 +122,15 @@ def check_case(case, wf):
         d = comps[i]['params']['C'] * ddt(V[i])
         err = np.abs(I[i][1:-1] - d)
         # exclude the samples adjacent to waveform breakpoints (input derivative jumps there)
-        if np.sort(err)[int(0.97 * len(err))] > 0.02 * max(np.max(np.abs(I[i])), 1e-9 * si):
+        noise = comps[i]['params']['C'] * 1e-14 * max(sv, np.max(np.abs(V[i]))) / h       # cancellation in the finite difference itself
+        if np.sort(err)[int(0.97 * len(err))] > 0.02 * max(np.max(np.abs(I[i])), 1e-9 * si) + noise:
             bad.append(('C12:capacitor-law', f'i_C of {i!r} is not C dv/dt (97th percentile error {np.sort(err)[int(0.97 * len(err))]}, max |i| {np.max(np.abs(I[i]))})'))
             return bad, m
     for i in m['l_ids']:
         d = comps[i]['params']['L'] * ddt(I[i])
         err = np.abs(V[i][1:-1] - d)
-        if np.sort(err)[int(0.97 * len(err))] > 0.02 * max(np.max(np.abs(V[i])), 1e-9 * sv):
+        noise = comps[i]['params']['L'] * 1e-14 * max(si, np.max(np.abs(I[i]))) / h
+        if np.sort(err)[int(0.97 * len(err))] > 0.02 * max(np.max(np.abs(V[i])), 1e-9 * sv) + noise:
             bad.append(('C12:inductor-law', f'v_L of {i!r} is not L di/dt'))
             return bad, m
     # independent integration
